@@ -724,6 +724,44 @@ pub fn spaces(_tier: Tier) -> Vec<Space> {
             }
         }));
     }
+    // large transactions whose count fields overstate what is present: n real inputs / outputs for n around 1024 (and more),
+    // the count replaced by larger values up to 2^64-1 - memory must stay bounded by the input, not by the declared count
+    {
+        let ns: Vec<usize> = vec![1023, 1024, 1025, 1100, 3000];
+        let claims: Vec<u64> = vec![1, 2, 65535, 65536, 3_000_000, 0xffff_ffff, 0x1_0000_0000, 1 << 60, u64::MAX];
+        let (nn, ncl) = (ns.len() as u64, claims.len() as u64);
+        v.push(Space::isolated("large-tx-overstated-counts", nn * ncl * 2, move |case, acc| {
+            let c = crate::engine::coords(case.idx, &[nn, ncl, 2]);
+            let n = ns[c[0] as usize];
+            let side_inputs = c[2] == 0;
+            // claims 0 and 1 are relative: n+1 and 2n
+            let claim = match c[1] {
+                0 => n as u64 + 1,
+                1 => 2 * n as u64,
+                k => claims[k as usize],
+            };
+            let mut b = vec![1u8, 0, 0, 0];
+            let one_in: Vec<u8> = [&[0x11u8; 32][..], &[0, 0, 0, 0], &[0x00], &[0xff, 0xff, 0xff, 0xff]].concat();
+            let one_out: Vec<u8> = [&[0x10u8, 0x27, 0, 0, 0, 0, 0, 0][..], &[0x01, 0x51]].concat();
+            let (n_in, n_out) = if side_inputs { (n, 1) } else { (1, n) };
+            b.extend_from_slice(&crate::refs::wire::cs_encode(if side_inputs { claim } else { n_in as u64 }));
+            for _ in 0..n_in {
+                b.extend_from_slice(&one_in);
+            }
+            b.extend_from_slice(&crate::refs::wire::cs_encode(if side_inputs { n_out as u64 } else { claim }));
+            for _ in 0..n_out {
+                b.extend_from_slice(&one_out);
+            }
+            b.extend_from_slice(&[0, 0, 0, 0]);
+            let what = format!("{} real {}, count field says {}", n, if side_inputs { "inputs" } else { "outputs" }, claim);
+            let call: Call = Box::new(|x: &[u8]| {
+                if let Ok(t) = mark(Transaction::from_bytes(x)) {
+                    let _ = t.to_bytes();
+                }
+            });
+            run_call(acc, case, "Transaction::from_bytes", &call, &what, &b);
+        }));
+    }
     // AES: key / IV / message material of every length class, all four modes, both directions
     v.push(Space::isolated("aes-material-sizes", 4 * 2 * 8 * 6 * 6, |case, acc| {
         let c = crate::engine::coords(case.idx, &[4, 2, 8, 6, 6]);
